@@ -24,7 +24,7 @@ ASSUMPTIONS = [
     "completeness (margin 0.1%) is asserted for open_deposit_mint, burn_and_withdraw and withdraw_uni_position only when the wallet covers the operation",
 ]
 MIN_NONTRIVIAL = {"quick": 3000, "thorough": 60000}
-REQUIRED_LABELS = ["mint.accepted", "mint.rejected.unsafe", "withdraw.accepted", "withdraw.rejected", "lp.deposited", "lp.withdraw.accepted", "liquidation.plain.half", "liquidation.plain.full", "liquidation.lp_first", "liquidation.capped", "twap.short_window", "twap.full_window", "safe.not_liquidated", "dust.rejected", "lp.pending", "twap.coarse_rows"]
+REQUIRED_LABELS = ["mint.accepted", "mint.rejected.unsafe", "withdraw.accepted", "withdraw.rejected", "lp.deposited", "lp.withdraw.accepted", "liquidation.plain.half", "liquidation.plain.full", "liquidation.lp_first", "liquidation.capped", "twap.short_window", "twap.full_window", "safe.not_liquidated", "dust.rejected", "lp.pending", "twap.coarse_rows", "lp.read", "path.eth_flat"]
 
 D = Decimal
 SCALE = D(10000)
@@ -41,7 +41,14 @@ def st_case(draw):
     osq = D(draw(st.integers(400, 2500))) / D(10000)  # ETH per oSQTH
     nf = D(draw(st.integers(2000, 9000))) / D(10000)
     rows = []
+    # 'eth_flat': ETH price and normalisation factor stand still (so the ETH TWAP and the index price do too) while the
+    # pool's oSQTH price keeps moving: an LP collateral changes its composition and value at an unchanged index
+    path_mode = draw(st.sampled_from(["mixed", "mixed", "mixed", "eth_flat"]))
     for i in range(n):
+        if i and path_mode == "eth_flat":
+            osq = (osq * draw(st.sampled_from([1000, 995, 990, 970, 930, 1010, 1040])) / 1000).quantize(D("0.00000001"))
+            rows.append({"eth": str(eth), "osq": str(osq), "nf": str(nf)})
+            continue
         if i:
             mv = draw(st.sampled_from(["flat", "flat", "drift", "jump_up", "jump_down"]))
             f = {"flat": 1000, "drift": draw(st.integers(990, 1010)), "jump_up": draw(st.integers(1050, 1600)), "jump_down": draw(st.integers(600, 950))}[mv]
@@ -53,7 +60,7 @@ def st_case(draw):
     ops = []
     for b in range(n):
         for _ in range(draw(st.integers(0, 3)) if b else draw(st.integers(1, 4))):
-            k = draw(st.sampled_from(["open", "open", "open_lp", "deposit", "mint", "burn_withdraw", "burn_withdraw", "lp_add", "lp_add", "lp_shrink", "lp_deposit", "lp_withdraw"]))
+            k = draw(st.sampled_from(["open", "open", "open_lp", "deposit", "mint", "burn_withdraw", "burn_withdraw", "lp_add", "lp_add", "lp_shrink", "lp_deposit", "lp_withdraw", "lp_read"]))
             v = draw(st.integers(0, 2))
             if k in ("open", "open_lp", "mint"):
                 ops.append([b, k, v, draw(st.sampled_from(["0.4", "0.5", "1", "3", "20"])), draw(st.sampled_from(["0", "0.5", "0.9", "0.999", "0.9999999", "1.0000001", "1.001", "1.2"]))])
@@ -65,9 +72,18 @@ def st_case(draw):
                 ops.append([b, k, draw(st.integers(-20, 5)), draw(st.integers(1, 25)), draw(st.sampled_from(["0.5", "3"]))])
             elif k == "lp_shrink":
                 ops.append([b, k, draw(st.integers(0, 2)), draw(st.sampled_from(["0.3", "0.5", "0.9"]))])
+            elif k == "lp_read":
+                ops.append([b, k, draw(st.integers(0, 2))])
             else:
                 ops.append([b, k, v, draw(st.integers(0, 2))])
-    return {"rows": rows, "ops": ops, "weth": draw(st.sampled_from(["10", "100"])), "osqth": draw(st.sampled_from(["0", "50", "2000"])), "step": draw(st.sampled_from([1, 1, 1, 2, 5]))}
+    if draw(st.integers(0, 3)) == 0:
+        # dependent motif: mint an LP position, look at it, take most of it out again, then borrow against what is left
+        b = draw(st.integers(0, n - 1))
+        motif = [[b, "lp_add", draw(st.integers(-12, -1)), draw(st.integers(14, 25)), "3"], [b, "lp_read", 0], [b, "lp_shrink", 0, draw(st.sampled_from(["0.5", "0.9"]))],
+                 [b, "open_lp", 0, draw(st.sampled_from(["0.4", "0.5", "1"])), draw(st.sampled_from(["0.9", "0.999", "1.001"]))]]
+        at = next((j for j, o in enumerate(ops) if o[0] > b), len(ops))
+        ops[at:at] = motif
+    return {"path_mode": path_mode, "rows": rows, "ops": ops, "weth": draw(st.sampled_from(["10", "100"])), "osqth": draw(st.sampled_from(["0", "50", "2000"])), "step": draw(st.sampled_from([1, 1, 1, 2, 5]))}
 
 
 class W:
@@ -123,9 +139,13 @@ class W:
 
     def lp_amounts(self, pos):
         """(weth, osqth) held by an LP position incl. pending, from the pool market's own view (token0 = WETH)"""
-        a0, a1 = self.uni.get_position_amount(pos)
+        from vf.multi import uni_position_amounts
+
         p = self.uni.positions[pos]
-        return a0 + p.pending_amount0, a1 + p.pending_amount1
+        # closed forms from the position's current liquidity at the pool's price (not the market's own amount view,
+        # which a vault check also goes through: a stale view there must not hide in the reference)
+        a0, a1 = uni_position_amounts(self.uni.pool_info, self.uni.market_status.data.price, pos.lower_tick, pos.upper_tick, p.liquidity)
+        return D(a0.numerator) / D(a0.denominator) + p.pending_amount0, D(a1.numerator) / D(a1.denominator) + p.pending_amount1
 
     def vault_ref(self, vk):
         """(collateral in ETH incl. LP at index price, debt in ETH) per the statement"""
@@ -235,6 +255,17 @@ def body(case, ctx: Ctx):
                     if pos not in w.lps:
                         w.lps.append(pos)
                     continue
+                elif k == "lp_read":
+                    # pure reads of the position views (a reader must never change what a later vault check sees)
+                    if w.lps:
+                        p_ = [p for p in w.lps if p in w.uni.positions]
+                        if p_:
+                            w.uni.get_position_amount(p_[op[2] % len(p_)])
+                            w.uni.get_position_status(p_[op[2] % len(p_)])
+                            w.uni.get_market_balance()
+                            w.sq.get_market_balance()
+                            labels.add("lp.read")
+                    continue
                 elif k == "lp_shrink":
                     # part of a free LP position's liquidity is removed without collecting: the position now carries pending amounts
                     free = [p for p in w.lps if p in w.uni.positions and not w.uni.positions[p].transferred and w.uni.positions[p].liquidity > 1]
@@ -260,7 +291,7 @@ def body(case, ctx: Ctx):
                     ok, err, kind = True, None, "lp.withdraw"
             except Exception as e:  # noqa: a rejected operation is an outcome
                 ok, err = False, e
-                if k in ("lp_add", "lp_shrink"):
+                if k in ("lp_add", "lp_shrink", "lp_read"):
                     continue
                 kind = {"open": "mint", "open_lp": "mint", "mint": "mint", "deposit": "deposit", "burn_withdraw": "withdraw", "lp_deposit": "lp_deposit", "lp_withdraw": "lp.withdraw"}[k]
                 tgt = None
@@ -371,6 +402,7 @@ def body(case, ctx: Ctx):
         ctx.check(post[1] == pre[1], "liquidation.wallet_weth", lambda: f"bar {i}: update() changed wallet WETH {pre[1]} -> {post[1]}", case)
         if not any(c[4] == "edge" for c in pre_ref.values()):
             ctx.check(abs(float(post[2] - pre[2]) - exp_o) <= 1e-8 * max(exp_o, 1.0), "liquidation.wallet_osqth", lambda: f"bar {i}: update() changed wallet oSQTH by {post[2] - pre[2]}, excess of redeemed LPs is {exp_o}", case)
+    labels.add(f"path.{case.get('path_mode', 'mixed')}")
     ctx.case(case, nontrivial, sorted(labels))
 
 
